@@ -50,7 +50,7 @@ type poolEntry struct {
 	dump string
 }
 
-var seedExprs = []string{"//*/@*", "/*/@*", "/*/*/@*", "//*[1]/@*", "//*/@* | $v", "$v | //*", "$w | $v", "//*/ancestor::* | $v", "$v[1] | $w[last()]", "//*", "//node()/preceding-sibling::node()", "count($v | //@*)", "$v/.. | //text()", "//*[. = $v]", "($v | $w)[position() mod 2 = 1]", "//*/namespace::* | $w", "$w/descendant-or-self::node() | $v"}
+var seedExprs = []string{"//*/@*", "/*/@*", "/*/*/@*", "//*[1]/@*", "//*/@* | $v", "/*/*[position() < 3]/@*", "/*/*[position() != 2]/@*", "/*/*[1]/* | /*/*[2]/*", "/*/*[position() < 3]/node()", "$v | //*", "$w | $v", "//*/ancestor::* | $v", "$v[1] | $w[last()]", "//*", "//node()/preceding-sibling::node()", "count($v | //@*)", "$v/.. | //text()", "//*[. = $v]", "($v | $w)[position() mod 2 = 1]", "//*/namespace::* | $w", "$w/descendant-or-self::node() | $v"}
 // every builtin with two different arguments, so that hidden per-function
 // state (caches, scratch buffers) is reached by concurrent, differing calls
 var builtinGroups = [][]string{
@@ -168,9 +168,12 @@ func Run(t *simkit.Tape, o *simkit.Outcome, full bool) {
 	var pool []*poolEntry
 	np := 2 + t.Draw(5)
 	forced := ""
+	capBase, capStep := t.Draw(len(world.CapacityExprs)), t.Draw(len(world.CapacityExprs)-1)
 	for i := 0; i < np; i++ {
 		var pe poolEntry
-		if forced != "" {
+		if specs[0].Family == "capacity" && i < 2 {
+			pe.Str, pe.Type = world.CapacityExprs[(capBase+i*(1+capStep))%len(world.CapacityExprs)], model.TNodeSet
+		} else if forced != "" {
 			pe.Str, pe.Type = forced, model.TStr
 			forced = ""
 		} else {
@@ -260,6 +263,14 @@ func Run(t *simkit.Tape, o *simkit.Outcome, full bool) {
 				o1.desc = fmt.Sprintf("BuildExpr(%q)", pool[o1.pool].Str)
 			}
 			tasks[ti] = append(tasks[ti], o1)
+		}
+	}
+	if specs[0].Family == "capacity" {
+		o.Probe("capacity-family-run")
+		for ti := 0; ti < 2 && ti < len(tasks); ti++ {
+			x := tasks[ti][0]
+			x.kind, x.pool, x.ctx, x.own = "exec", ti, world.NodeRef{}, false
+			x.desc = fmt.Sprintf("Exec(%s, e%d)", w.PathOf(x.ctx), x.pool)
 		}
 	}
 	mkReq := func(x *op) world.ExecReq {
